@@ -12,9 +12,14 @@
    acknowledgement may only be created for a prefix the follower's log shares
    with that leader log and released once the durable log covers it, a leader
    commits only own-term entries acknowledged (released) by a quorum with its
-   own log counted by what is durable.  Whether the implementation's transitions
-   satisfy these guards is what the acceptor (P/LogAccept.v) checks on every
-   observed transition.  Executable definitions only; theorems in P/LogProofs.v. *)
+   own log counted by what is durable (recorded, in the ghost [acked] only, as an
+   implicit acknowledgement of the leader), and a log image becomes durable only if
+   none of its entries has a term above the durable term (the hard state of a Ready
+   is durable no later than its entries: without this guard state-machine safety is
+   false, P/LogSafety.v unguarded_fsync_unsafe).  Whether the implementation's
+   transitions satisfy these guards is what the acceptor (P/LogAccept.v) checks on
+   every observed transition.  Executable definitions only; theorems in
+   P/LogProofs.v (C05) and P/LogSafety.v (C01, C03, C04). *)
 From RV Require Import Base.Prelude M.Quorum P.Election.
 
 Local Open Scope N_scope.
